@@ -1,21 +1,26 @@
 package props
 
 import (
+	"context"
 	"crypto/sha256"
 	"encoding/binary"
 	"encoding/json"
 	"fmt"
 	"hash/fnv"
 	"io"
+	"net"
 	"os"
 	"path/filepath"
+	"regexp"
 	"sort"
 	"strconv"
 	"sync"
+	"sync/atomic"
 	"testing"
 
 	"github.com/Breeze0806/go/log"
 	"github.com/Breeze0806/gobinlog"
+	"github.com/Breeze0806/mysql"
 	"pgregory.net/rapid"
 
 	"verif/gen"
@@ -69,8 +74,20 @@ func pick(q, th int) int {
 	return n
 }
 
+// dialHook, when set, runs after the custom dialer has connected and before it
+// hands the connection to the driver (a cancellation exactly between the two).
+var dialHook atomic.Value // func()
+
 func TestMain(m *testing.M) {
 	gobinlog.SetLogger(log.NewDefaultLogger(io.Discard, log.ErrorLevel, ""))
+	mysql.RegisterDialContext("verifdial", func(ctx context.Context, addr string) (net.Conn, error) {
+		var d net.Dialer
+		c, err := d.DialContext(ctx, "tcp", addr)
+		if f, ok := dialHook.Load().(func()); ok && f != nil && err == nil {
+			f()
+		}
+		return c, err
+	})
 	os.Exit(m.Run())
 }
 
@@ -312,5 +329,41 @@ func guard(f func() error) (err error) {
 // rapidCheck runs a rapid property and keeps going semantics uniform.
 func rapidCheck(t *testing.T, prop func(*rapid.T)) {
 	t.Helper()
+	if t.Failed() {
+		return // a deterministic part already reported a violation
+	}
 	rapid.Check(t, prop)
 }
+
+// knownSig reports whether a finding signature is listed as a known finding in
+// /verif/known_findings.json (read-only; never written at run time).
+func knownSig(sig string) bool {
+	knownOnce.Do(func() {
+		b, err := os.ReadFile(filepath.Join("..", "known_findings.json"))
+		if err != nil {
+			return
+		}
+		var kf struct {
+			Findings []struct{ Status, Property, Signature string } `json:"findings"`
+		}
+		if json.Unmarshal(b, &kf) != nil {
+			return
+		}
+		for _, f := range kf.Findings {
+			if f.Status == "known" && f.Signature != "" {
+				if re, err := regexp.Compile(f.Signature); err == nil {
+					knownRes = append(knownRes, re)
+				}
+			}
+		}
+	})
+	for _, re := range knownRes {
+		if re.MatchString(sig) {
+			return true
+		}
+	}
+	return false
+}
+
+var knownOnce sync.Once
+var knownRes []*regexp.Regexp
